@@ -42,6 +42,31 @@ class _LazyIter(_IterWithClose):
         return super().__next__()
 
 
+class _IterableWithClose:
+    """A response object (Django/werkzeug style): close() lives on the object the application returns, while iteration goes
+    through a *different* object (a generator method, or iter() of an inner list)."""
+
+    def __init__(self, chunks, rec, raise_at=None, inner="generator"):
+        self.chunks = list(chunks)
+        self.rec = rec
+        self.raise_at = raise_at
+        self.inner = inner
+
+    def __iter__(self):
+        if self.inner == "list":
+            return iter(self.chunks)
+        return self._gen()
+
+    def _gen(self):
+        for i, c in enumerate(self.chunks):
+            if self.raise_at is not None and i == self.raise_at:
+                raise RuntimeError("wsgi iteration failure")
+            yield c
+
+    def close(self):
+        self.rec["closes"] = self.rec.get("closes", 0) + 1
+
+
 def build_wsgi(spec, rec, trace):
     """spec: {"shape", "status", "headers": [(str,str)], "chunks": [bytes], "raise_at": int|None}"""
     shape = spec["shape"]
@@ -88,6 +113,10 @@ def build_wsgi(spec, rec, trace):
             return gen2()
         if shape == "iter_close":
             return _IterWithClose(chunks, rec, spec.get("raise_at"))
+        if shape == "iterable_close_gen":
+            return _IterableWithClose(chunks, rec, spec.get("raise_at"), "generator")
+        if shape == "iterable_close_list":
+            return _IterableWithClose(chunks, rec, None, "list")
         raise ValueError(shape)
 
     return app
